@@ -39,6 +39,13 @@ PROPS = {
                 release=False, leak_free=True),
     "C05": dict(families=["elem", "range", "clone", "capacity", "random"], keys=["out", "ev_backend", "snap"],
                 cfgs=lambda c: c["be"] in ("reloc", "heap"), release=False, leak_free=True),
+    "C06": dict(families=["fuse", "liar"], keys=["out", "ret", "len", "snap", "ev_user"],
+                cfgs=lambda c: (c["be"] in ("heap", "reloc") and c["sz"] in (0, 3, 8, 24, 160)) or (c["be"] in ("stack:72", "stackn:4:96", "stack:0") and c["sz"] == 24),
+                release=False, leak_free=False),
+    "C07": dict(families=["forget"], keys=["out", "ret", "len", "snap", "ev_user"], cfgs=any_cfg,
+                release=False, leak_free=False),
+    "C09": dict(families=["lazy"], keys=["out", "ret", "len", "snap", "ev_user"], cfgs=any_cfg,
+                release=False, leak_free=True),
     "C08": dict(families=["clone"], keys=["out", "len", "snap", "ev_clone", "ev_drop"], cfgs=any_cfg,
                 release=False, leak_free=True),
     "C10": dict(families=["capacity", "random"], keys=["out", "len", "cap", "snap"], cfgs=is_resizable,
